@@ -120,7 +120,7 @@ def run(tier: str, seed: int, st: core.ProofStatus) -> core.Result:
                 "sequential vs --parallel from a relative directory target or the explicit file list, with optional explicit --config; non-trivial = a pooled run (files >= "
                 "2 x workers) with at least 3 violations; distinct = distinct (project, workers, order)")
     rng = core.sub_rng(seed, PROP, tier)
-    n_cases = 24 if tier == "quick" else 400
+    n_cases = 36 if tier == "quick" else 400
     cases = [gen_case(rng, i, tier) for i in range(n_cases)]
     root = core.scratch_dir("c07")
     try:
